@@ -5,6 +5,7 @@
   `repeatEc1`, `namedCounts`, `noSingleKey`) is defined in BklProofs/Lemmas/Repeat.lean.
 -/
 import BklProofs.Lemmas.Repeat
+import BklProofs.Lemmas.C12Subst
 namespace Bkl
 
 /-! ## document level, integer count -/
@@ -202,5 +203,594 @@ theorem C12_repeatDoc_map_int (kvs : Fields) (ec : Vars) (n : Int)
   exact C12_doc_int _ ec n
 
 example : fget [("$repeat", Val.int 2), ("a", .int 1)] "$repeat" = some (.int 2) := by decide
+
+/-! ## each copy is the document written out by hand with the index substituted
+
+  `substRepeat i` (BklProofs/Lemmas/C12Subst.lean) is the hand-written copy: every string value
+  `"$repeat"` becomes the integer `i`, and inside a `$"…"` interpolation string every `{$repeat}`
+  becomes the decimal text of `i`.  Map keys are left alone: `process2` does evaluate keys under
+  the binding, but a key `$repeat` evaluates to an integer, which is an `invalidType` error
+  (`C12_repeat_key_is_error`), and substituting inside interpolated *keys* would re-sort the
+  map and so change the evaluation order; keys are therefore required to be non-interpolated.
+
+  `repeatBody interp body`: no map key is `$repeat`/`$encode`/`$decode`/`$value` or an
+  interpolation, and every string is either not an interpolation or (only when `interp = true`)
+  an interpolation all of whose references are `{$repeat}`. -/
+
+/-- bodies using only whole-string `"$repeat"` (no interpolation strings): evaluating the body
+    under `$repeat ↦ i` is evaluating the substituted body without the binding — for every fuel,
+    every `root`, `docs` and `ec` -/
+theorem C12_subst (fuel : Nat) (docs : List Val) (root : Val) (ec : Vars) (i : Int) (body : Val)
+    (hb : repeatBody false body = true) :
+    process2 fuel docs root (fset ec "$repeat" (.int i)) body
+      = process2 fuel docs root ec (substRepeat i body) :=
+  process2_subst_gen false docs docs root root i (fun h => by cases h) fuel ec body hb
+
+/-- the same with `{$repeat}` inside `$"…"` strings replaced by the decimal text, provided the
+    referencing document `root` does not capture the reference `$repeat` (`rootOK`: the path
+    lookup of `$repeat` in `root` fails, so the variable is consulted) -/
+theorem C12_subst_partial (fuel : Nat) (docs : List Val) (root : Val) (ec : Vars) (i : Int)
+    (body : Val) (hroot : rootOK root docs) (hb : repeatBody true body = true) :
+    process2 fuel docs root (fset ec "$repeat" (.int i)) body
+      = process2 fuel docs root ec (substRepeat i body) :=
+  process2_subst_gen true docs docs root root i (fun _ => hroot) fuel ec body hb
+
+/-- The unrestricted statement (every body without a nested `$repeat` key and without other
+    directives; `substRepeat` touching only `"$repeat"` and `{$repeat}`) is FALSE, which is why
+    `C12_subst_partial` restricts interpolation references to `{$repeat}`: an interpolation
+    `$"{a}"` that refers to an *unevaluated* string `a: "$repeat"` of the referencing document
+    evaluates that string under the current variables — `"5"` under the binding `$repeat ↦ 5`,
+    but `variableNotFound` for the hand-substituted body without the binding. -/
+theorem C12_subst_false :
+    ∃ (root body : Val), rootOK root [] ∧
+      process2 2 [] root (fset [] "$repeat" (.int 5)) body = .ok (.str "5") ∧
+      substRepeat 5 body = body ∧
+      process2 2 [] root [] (substRepeat 5 body) = .error .variableNotFound ∧
+      process2 2 [] root (fset [] "$repeat" (.int 5)) body
+        ≠ process2 2 [] root [] (substRepeat 5 body) := by
+  have h1 : process2 2 [] (.map [("a", .str "$repeat")]) (fset [] "$repeat" (.int 5)) (.str "$\"{a}\"")
+      = .ok (.str "5") := by
+    rw [process2_ref_a]
+    exact congrArg Except.ok (by decide)
+  have h2 : substRepeat 5 (.str "$\"{a}\"") = .str "$\"{a}\"" := by decide
+  have h3 : process2 2 [] (.map [("a", .str "$repeat")]) [] (substRepeat 5 (.str "$\"{a}\""))
+      = .error .variableNotFound := by
+    rw [h2, process2_ref_a]; rfl
+  refine ⟨.map [("a", .str "$repeat")], .str "$\"{a}\"",
+    rootOK_of_no_key _ _ (fun _ e => by cases e; decide), h1, h2, h3, ?_⟩
+  rw [h1, h3]
+  intro e; cases e
+
+/-- `rootOK` cannot be dropped either: if the referencing document has its own `$repeat` entry,
+    `{$repeat}` resolves to that entry (here 9), not to the index (here 5) -/
+theorem C12_subst_root_capture_counterexample :
+    process2 2 [] (.map [("$repeat", .int 9)]) (fset [] "$repeat" (.int 5)) (.str "$\"{$repeat}\"")
+      = .ok (.str "9") ∧
+    process2 2 [] (.map [("$repeat", .int 9)]) [] (substRepeat 5 (.str "$\"{$repeat}\""))
+      = .ok (.str "5") ∧
+    ¬ rootOK (.map [("$repeat", .int 9)]) [] := by
+  refine ⟨?_, ?_, ?_⟩
+  · rw [process2_ref_repeat_captured]; exact congrArg Except.ok (by decide)
+  · have h : substRepeat 5 (.str "$\"{$repeat}\"") = .str "$\"5\"" := by decide
+    rw [h, process2, process2String_interp_eq 1 _ _ _ _ "5".toList (by decide)]
+    have : interpSegs "5".toList = [.lit "5".toList] := by decide
+    rw [this]
+    simp only [interpSpec, List.mapM_cons, List.mapM_nil, interpSeg]
+    exact congrArg Except.ok (by decide)
+  · rintro ⟨e, he, _⟩
+    rw [get_repeat] at he
+    simp [getPath, fget, pure, Except.pure] at he
+
+/-- the substituted body consults neither the referencing document nor the stream: the right-hand
+    side may be evaluated against any `root'`, `docs'` — in particular against the substituted
+    body itself, which is "the document written out by hand" evaluated on its own -/
+theorem C12_subst_standalone (fuel : Nat) (docs docs' : List Val) (root root' : Val) (ec : Vars)
+    (i : Int) (body : Val) (hroot : rootOK root docs) (hb : repeatBody true body = true) :
+    process2 fuel docs root (fset ec "$repeat" (.int i)) body
+      = process2 fuel docs' root' ec (substRepeat i body) :=
+  process2_subst_gen true docs docs' root root' i (fun _ => hroot) fuel ec body hb
+
+/-- `rootOK` holds whenever `root` is not a map with a top-level `$repeat` key — e.g. for the
+    body of a document-level repeat, from which `repeatDoc` has deleted that key -/
+theorem C12_rootOK_of_no_key (root : Val) (docs : List Val)
+    (h : ∀ kvs, root = .map kvs → fget kvs "$repeat" = none) : rootOK root docs :=
+  rootOK_of_no_key root docs h
+
+theorem C12_rootOK_body (kvs : Fields) (docs : List Val) :
+    rootOK (.map (fdel kvs "$repeat")) docs :=
+  rootOK_of_no_key _ docs (fun _ e => by cases e; exact fget_fdel_same _ _)
+
+/-- what the substitution does to leaves -/
+theorem C12_substRepeat_leaf (i : Int) :
+    substRepeat i (.str "$repeat") = .int i ∧
+    (∀ s, s ≠ "$repeat" → interpBody s = none → substRepeat i (.str s) = .str s) ∧
+    (∀ s b, s ≠ "$repeat" → interpBody s = some b →
+      substRepeat i (.str s) = .str (String.ofList ('$' :: '"' :: (substChars i b ++ ['"'])))) ∧
+    (∀ b, interpBody (String.ofList ('$' :: '"' :: (substChars i b ++ ['"']))) = some (substChars i b)) := by
+  refine ⟨by simp [substRepeat, substStr], ?_, ?_, fun b => interpBody_quoted _⟩
+  · intro s h1 h2; simp [substRepeat, substStr, h1, h2]
+  · intro s b h1 h2; simp [substRepeat, substStr, h1, h2]
+
+/-- non-vacuity and tests -/
+example : repeatBody false (.map [("n", .str "$repeat"), ("l", .list [.str "$repeat", .str "x"])]) = true := by
+  decide
+example : repeatBody true (.map [("v", .str "$repeat"), ("w", .str "$\"n-{$repeat}\"")]) = true := by
+  decide
+example : substRepeat 2 (.map [("v", .str "$repeat"), ("w", .str "$\"n-{$repeat}\"")])
+    = .map [("v", .int 2), ("w", .str "$\"n-2\"")] := by decide
+example : substRepeat (-3) (.list [.str "$repeat", .str "$\"{$repeat}{$repeat}{x}\""])
+    = .list [.int (-3), .str "$\"-3-3{x}\""] := by decide
+example : rootOK (.map [("v", .str "$repeat")]) [] :=
+  rootOK_of_no_key _ _ (fun _ e => by cases e; decide)
+/-- end to end: the copy for index 2 of `{v: $repeat, w: $"n-{$repeat}"}` is `{v: 2, w: "n-2"}` -/
+example : process2 3 [] (.map [("v", .str "$repeat"), ("w", .str "$\"n-{$repeat}\"")])
+      (fset [] "$repeat" (.int 2)) (.map [("v", .str "$repeat"), ("w", .str "$\"n-{$repeat}\"")])
+    = .ok (.map [("v", .int 2), ("w", .str "n-2")]) := by
+  rw [C12_subst_partial 3 [] _ [] 2 _ (rootOK_of_no_key _ _ (fun _ e => by cases e; decide)) (by decide)]
+  have h : substRepeat 2 (.map [("v", .str "$repeat"), ("w", .str "$\"n-{$repeat}\"")])
+      = .map [("v", .int 2), ("w", .str "$\"n-2\"")] := by decide
+  rw [h]
+  have hs : process2 2 [] (.map [("v", .str "$repeat"), ("w", .str "$\"n-{$repeat}\"")]) []
+      (.str "$\"n-2\"") = .ok (.str "n-2") := by
+    rw [process2, process2String_interp_eq 1 _ _ _ _ "n-2".toList (by decide)]
+    have : interpSegs "n-2".toList = [.lit "n-2".toList] := by decide
+    rw [this]
+    simp only [interpSpec, List.mapM_cons, List.mapM_nil, interpSeg]
+    exact congrArg Except.ok (by decide)
+  have hk1 : process2 2 [] (.map [("v", .str "$repeat"), ("w", .str "$\"n-{$repeat}\"")]) []
+      (.str "v") = .ok (.str "v") := by
+    rw [process2, process2String.eq_1]; simp [interpBody]; rfl
+  have hk2 : process2 2 [] (.map [("v", .str "$repeat"), ("w", .str "$\"n-{$repeat}\"")]) []
+      (.str "w") = .ok (.str "w") := by
+    rw [process2, process2String.eq_1]; simp [interpBody]; rfl
+  rw [process2_map_eq]
+  simp only [List.foldlM_cons, List.foldlM_nil, mapStep1, pure_bind, bind_pure]
+  have hf : fset (fset [] "v" (.int 2)) "w" (.str "$\"n-2\"") = [("v", .int 2), ("w", .str "$\"n-2\"")] := by
+    decide
+  simp only [hf]
+  rw [process2MapTail_plain _ _ _ _ _ (by decide) (by decide) (by decide)]
+  simp only [List.foldlM_cons, List.foldlM_nil, mapStep2, hs, hk1, hk2, ok_bind]
+  have hv : process2 2 [] (.map [("v", .str "$repeat"), ("w", .str "$\"n-{$repeat}\"")]) []
+      (.int 2) = .ok (.int 2) := rfl
+  simp only [hv, ok_bind, Val.isNull, Bool.false_eq_true, if_false, pure, Except.pure]
+  exact congrArg Except.ok (by decide)
+
+/-- a map key `$repeat` in a body is evaluated under the binding to an integer, which is not a
+    valid key: this is why keys are excluded from the substitution -/
+theorem C12_repeat_key_is_error (fuel : Nat) (docs : List Val) (root : Val) (ec : Vars) (i j : Int) :
+    process2 (fuel + 2) docs root (fset ec "$repeat" (.int i)) (.map [("$repeat", .int j)])
+      = .error .invalidType := by
+  have hkey : process2 (fuel + 1) docs root (fset ec "$repeat" (.int i)) (.str "$repeat")
+      = .ok (.int i) := by
+    rw [process2, process2String.eq_1]
+    simp [interpBody_repeat, getVar, fget_fset_same, pure, Except.pure]
+  have hval : process2 (fuel + 1) docs root (fset ec "$repeat" (.int i)) (.int j) = .ok (.int j) := rfl
+  rw [process2_map_eq]
+  simp only [List.foldlM_cons, List.foldlM_nil, mapStep1, pure_bind, bind_pure, fset]
+  rw [process2MapTail_plain _ _ _ _ _ (by simp [fget]) (by simp [fget]) (by simp [fget])]
+  simp only [List.foldlM_cons, List.foldlM_nil, mapStep2, hkey, hval, ok_bind, Val.isNull,
+    Bool.false_eq_true, if_false]
+  rfl
+
+/-! ## nested repeat in a map entry
+
+  `process2` on a map first expands every entry `k: {$repeat: n, …body…}` (step 1): for
+  `i = 0 … n-1`, in order, the body (the value without its `$repeat` key) is evaluated under
+  `$repeat ↦ i`; a null copy is dropped; otherwise the key `k` is evaluated under the same binding
+  (it must be a string) and the copy is stored under the evaluated key with `fset` — so when two
+  copies evaluate to the same key the LATER copy overwrites the earlier one.  The expanded map then
+  goes through the ordinary map evaluation `process2MapTail` (directive check, then every value
+  and key is evaluated once more, now without the binding).  `repeatEntry` and `process2MapTail`
+  are defined in BklProofs/Lemmas/C12Subst.lean; `C12_map_tail_spec` shows that `process2MapTail`
+  is exactly `process2` on a map without nested-repeat entries. -/
+
+/-- general form, mirroring `C12_list_nested` -/
+theorem C12_map_nested (fuel : Nat) (docs : List Val) (root : Val) (ec : Vars) (k : String)
+    (m : Fields) (n : Int) (hr : fget m "$repeat" = some (.int n)) :
+    process2 (fuel + 1) docs root ec (.map [(k, .map m)])
+      = (do
+          let es ← (List.range n.toNat).mapM
+            (repeatEntry fuel docs root ec k (.map (fdel m "$repeat")))
+          process2MapTail fuel docs root ec (fofList (es.filterMap id))) :=
+  process2_map_nested fuel docs root ec k m n hr
+
+/-- what one copy is -/
+theorem C12_map_nested_entry (fuel : Nat) (docs : List Val) (root : Val) (ec : Vars) (k : String)
+    (body : Val) (i : Nat) :
+    repeatEntry fuel docs root ec k body i
+      = (do
+          let v2 ← process2 fuel docs root (fset ec "$repeat" (.int i)) body
+          if v2.isNull then pure none
+          else
+            match ← process2 fuel docs root (fset ec "$repeat" (.int i)) (.str k) with
+            | .str k2 => pure (some (k2, v2))
+            | _ => throw Err.invalidType) := rfl
+
+/-- `process2MapTail` is `process2` on a map none of whose entries carries a nested `$repeat`
+    (the entries are first re-inserted in key order, later duplicates winning) -/
+theorem C12_map_tail_spec (fuel : Nat) (docs : List Val) (root : Val) (ec : Vars) (kvs : Fields)
+    (h : ∀ q ∈ kvs, ∀ m, q.2 = .map m → fget m "$repeat" = none) :
+    process2 (fuel + 1) docs root ec (.map kvs) = process2MapTail fuel docs root ec (fofList kvs) := by
+  rw [process2_map_eq, e_foldlM_fields_id _ kvs [] (fun acc q hq => mapStep1_plain _ _ _ _ _ _ (h q hq))]
+  rfl
+
+example : ∀ q ∈ ([("a", .int 1), ("b", .map [("c", .null)])] : Fields),
+    ∀ m, q.2 = .map m → fget m "$repeat" = none := by
+  intro q hq m e
+  simp only [List.mem_cons, List.not_mem_nil, or_false] at hq
+  rcases hq with rfl | rfl
+  · cases e
+  · cases e; decide
+
+/-- a non-integer count in a map entry is an `invalidType` error -/
+theorem C12_nonint_error_map_nested (fuel : Nat) (docs : List Val) (root : Val) (ec : Vars)
+    (k : String) (m : Fields) (r : Val) (hr : fget m "$repeat" = some r) (hni : ∀ n, r ≠ .int n) :
+    process2 (fuel + 1) docs root ec (.map [(k, .map m)]) = .error .invalidType := by
+  rw [process2_map_eq]
+  simp only [List.foldlM_cons, List.foldlM_nil, mapStep1, hr]
+  cases r <;> first | rfl | exact absurd rfl (hni _)
+
+/-- step 1 when no copy errors or is null: the expanded map is `fofList` of the `n` pairs
+    (evaluated key, evaluated body), in index order -/
+theorem C12_map_nested_entries (fuel : Nat) (docs : List Val) (root : Val) (ec : Vars) (k : String)
+    (body : Val) (n : Nat) (g : Nat → Val) (kf : Nat → String)
+    (hg : ∀ i, i < n → process2 fuel docs root (fset ec "$repeat" (.int i)) body = .ok (g i))
+    (hnn : ∀ i, i < n → (g i).isNull = false)
+    (hk : ∀ i, i < n →
+      process2 fuel docs root (fset ec "$repeat" (.int i)) (.str k) = .ok (.str (kf i))) :
+    (List.range n).mapM (repeatEntry fuel docs root ec k body)
+      = .ok ((List.range n).map fun i => some (kf i, g i)) := by
+  apply mapM_ok_of_forall'
+  intro i hi
+  have hi' := List.mem_range.1 hi
+  have h1 := hg i hi'
+  have h2 := hk i hi'
+  simp only [repeatEntry]
+  change (process2 fuel docs root (fset ec "$repeat" (.int (i : Int))) body >>= _) = _
+  rw [h1, ok_bind, hnn i hi']
+  simp only [Bool.false_eq_true, if_false]
+  change (process2 fuel docs root (fset ec "$repeat" (.int (i : Int))) (.str k) >>= _) = _
+  rw [h2]
+  rfl
+
+/-- `fofList`: the value under a key is the one of the LAST entry with that key; with pairwise
+    distinct keys nothing is lost -/
+theorem C12_fofList_later_wins (n : Nat) (g : Nat → Val) (kf : Nat → String) :
+    Fields.SortedKeys (fofList ((List.range n).map fun i => (kf i, g i))) ∧
+    (∀ j, j < n → (∀ j', j < j' → j' < n → kf j' ≠ kf j) →
+      fget (fofList ((List.range n).map fun i => (kf i, g i))) (kf j) = some (g j)) ∧
+    (∀ x, (∀ j, j < n → kf j ≠ x) →
+      fget (fofList ((List.range n).map fun i => (kf i, g i))) x = none) ∧
+    ((∀ i j, i < n → j < n → kf i = kf j → i = j) →
+      (fofList ((List.range n).map fun i => (kf i, g i))).length = n) := by
+  refine ⟨rp_sorted_fofList _, ?_, ?_, ?_⟩
+  · intro j hj hlast
+    obtain ⟨d, rfl⟩ : ∃ d, n = (j + 1) + d := ⟨n - (j + 1), by omega⟩
+    rw [List.range_add, List.range_succ, List.map_append, List.map_append]
+    simp only [List.map_cons, List.map_nil, List.append_assoc, List.singleton_append, fofList]
+    apply fget_fsetAll_last
+    intro p hp
+    simp only [List.map_map, List.mem_map, List.mem_range] at hp
+    obtain ⟨t, ht, rfl⟩ := hp
+    exact hlast _ (by simp; omega) (by simp; omega)
+  · intro x hx
+    rw [fofList, fget_fsetAll_not_mem]
+    · rfl
+    · intro p hp
+      simp only [List.mem_map, List.mem_range] at hp
+      obtain ⟨t, ht, rfl⟩ := hp
+      exact hx t ht
+  · intro hinj
+    rw [fofList, length_fsetAll_nodup]
+    · simp
+    · rw [List.map_map, List.nodup_iff_pairwise_ne, List.pairwise_map]
+      refine List.Pairwise.imp_of_mem ?_ (List.pairwise_lt_range (n := n))
+      intro a b ha hb hab e
+      have := hinj a b (List.mem_range.1 ha) (List.mem_range.1 hb) e
+      omega
+    · intro p _; rfl
+
+/-- exact form, mirroring `C12_list_nested_exact`: if copy `i` evaluates to the non-null `g i`
+    under the evaluated key `kf i`, no evaluated key is a directive, and the copies are already
+    evaluated (the second pass leaves them and their keys alone), the result is the sorted map
+    of the pairs `(kf i, g i)` in which a later copy replaces an earlier one with the same key;
+    it has exactly `n` entries when the evaluated keys are pairwise distinct -/
+theorem C12_map_nested_exact (fuel : Nat) (docs : List Val) (root : Val) (ec : Vars) (k : String)
+    (m : Fields) (n : Int) (g : Nat → Val) (kf : Nat → String)
+    (hr : fget m "$repeat" = some (.int n))
+    (hg : ∀ i, i < n.toNat →
+      process2 fuel docs root (fset ec "$repeat" (.int i)) (.map (fdel m "$repeat")) = .ok (g i))
+    (hnn : ∀ i, i < n.toNat → (g i).isNull = false)
+    (hk : ∀ i, i < n.toNat →
+      process2 fuel docs root (fset ec "$repeat" (.int i)) (.str k) = .ok (.str (kf i)))
+    (hdir : ∀ i, i < n.toNat → kf i ≠ "$encode" ∧ kf i ≠ "$decode" ∧ kf i ≠ "$value")
+    (hfix : ∀ i, i < n.toNat → process2 fuel docs root ec (g i) = .ok (g i) ∧
+      process2 fuel docs root ec (.str (kf i)) = .ok (.str (kf i))) :
+    process2 (fuel + 1) docs root ec (.map [(k, .map m)])
+      = .ok (.map (fofList ((List.range n.toNat).map fun i => (kf i, g i)))) ∧
+    (∀ j, j < n.toNat → (∀ j', j < j' → j' < n.toNat → kf j' ≠ kf j) →
+      fget (fofList ((List.range n.toNat).map fun i => (kf i, g i))) (kf j) = some (g j)) ∧
+    ((∀ i j, i < n.toNat → j < n.toNat → kf i = kf j → i = j) →
+      (fofList ((List.range n.toNat).map fun i => (kf i, g i))).length = n.toNat) := by
+  obtain ⟨_, hlast, hnone, hlen⟩ := C12_fofList_later_wins n.toNat g kf
+  refine ⟨?_, hlast, hlen⟩
+  rw [C12_map_nested fuel docs root ec k m n hr,
+    C12_map_nested_entries fuel docs root ec k _ n.toNat g kf hg hnn hk, ok_bind]
+  have hfm : ∀ l : List Nat, (l.map fun i => some (kf i, g i)).filterMap id
+      = l.map fun i => (kf i, g i) := by
+    intro l
+    induction l with
+    | nil => rfl
+    | cons a l ih => simp [ih]
+  rw [hfm]
+  generalize hE : fofList ((List.range n.toNat).map fun i => (kf i, g i)) = E
+  have hmem : ∀ q ∈ E, ∃ i, i < n.toNat ∧ q = (kf i, g i) := by
+    intro q hq
+    rw [← hE, fofList] at hq
+    rcases mem_fsetAll hq with h | h
+    · cases h
+    · simp only [List.mem_map, List.mem_range] at h
+      obtain ⟨i, hi, rfl⟩ := h
+      exact ⟨i, hi, rfl⟩
+  have hno : ∀ d, (∀ i, i < n.toNat → kf i ≠ d) → fget E d = none := by
+    intro d hd; rw [← hE]; exact hnone d hd
+  rw [process2MapTail_plain _ _ _ _ _ (hno _ fun i hi => (hdir i hi).1)
+    (hno _ fun i hi => (hdir i hi).2.1) (hno _ fun i hi => (hdir i hi).2.2),
+    foldlM_mapStep2_fix]
+  · rw [← hE, fofList_idem]; rfl
+  · intro q hq
+    obtain ⟨i, hi, rfl⟩ := hmem q hq
+    exact ⟨(hfix i hi).1, hnn i hi, (hfix i hi).2⟩
+
+/-- non-vacuity of all hypotheses of `C12_map_nested_exact`, for every count `n`:
+    `{$"k{$repeat}": {$repeat: n, v: $repeat}}` with `g i = {v: i}` and `kf i = "k<i>"` -/
+example (n : Int) :
+    let m : Fields := [("$repeat", .int n), ("v", .str "$repeat")]
+    let g : Nat → Val := fun i => .map [("v", .int i)]
+    let kf : Nat → String := fun i => String.ofList ('k' :: (toString (i : Int)).toList)
+    fget m "$repeat" = some (.int n) ∧
+    (∀ i, i < n.toNat → process2 2 [] .null (fset [] "$repeat" (.int i))
+      (.map (fdel m "$repeat")) = .ok (g i)) ∧
+    (∀ i, i < n.toNat → (g i).isNull = false) ∧
+    (∀ i, i < n.toNat → process2 2 [] .null (fset [] "$repeat" (.int i))
+      (.str "$\"k{$repeat}\"") = .ok (.str (kf i))) ∧
+    (∀ i, i < n.toNat → kf i ≠ "$encode" ∧ kf i ≠ "$decode" ∧ kf i ≠ "$value") ∧
+    (∀ i, i < n.toNat → process2 2 [] .null [] (g i) = .ok (g i) ∧
+      process2 2 [] .null [] (.str (kf i)) = .ok (.str (kf i))) := by
+  have hroot : rootOK .null [] := rootOK_of_no_key _ _ (fun _ e => by cases e)
+  refine ⟨by simp [fget], fun i _ => ?_, fun _ _ => rfl, fun i _ => ?_, fun i _ => ?_, fun i _ => ?_⟩
+  · have : fdel [("$repeat", Val.int n), ("v", .str "$repeat")] "$repeat" = [("v", .str "$repeat")] := by
+      simp [fdel]
+    rw [this]
+    exact process2_body_v_repeat 0 [] .null [] i
+  · exact process2_key_k_repeat 0 [] .null [] i hroot
+  · exact ⟨ofList_ne_of_head (d := '$') (by decide) (by decide),
+      ofList_ne_of_head (d := '$') (by decide) (by decide),
+      ofList_ne_of_head (d := '$') (by decide) (by decide)⟩
+  · exact ⟨process2_single_int 0 [] .null [] "v" "v" i
+        (process2_key_nodollar 0 [] .null [] 'v' [] (by decide)) (by decide) (by decide) (by decide),
+      process2_key_nodollar 1 [] .null [] 'k' _ (by decide)⟩
+
+/-- test (distinct keys): `{$"k{$repeat}": {$repeat: 2, v: $repeat}}` is `{k0: {v: 0}, k1: {v: 1}}` -/
+example : process2 3 [] .null [] (.map [("$\"k{$repeat}\"", .map [("$repeat", .int 2), ("v", .str "$repeat")])])
+    = .ok (.map [("k0", .map [("v", .int 0)]), ("k1", .map [("v", .int 1)])]) := by
+  have hroot : rootOK .null [] := rootOK_of_no_key _ _ (fun _ e => by cases e)
+  have hdel : fdel [("$repeat", Val.int 2), ("v", .str "$repeat")] "$repeat" = [("v", .str "$repeat")] := by
+    decide
+  have h := (C12_map_nested_exact 2 [] .null [] "$\"k{$repeat}\""
+    [("$repeat", .int 2), ("v", .str "$repeat")] 2 (fun i => .map [("v", .int i)])
+    (fun i => String.ofList ('k' :: (toString (i : Int)).toList)) (by decide)
+    (fun i _ => by rw [hdel]; exact process2_body_v_repeat 0 [] .null [] i)
+    (fun _ _ => rfl)
+    (fun i _ => process2_key_k_repeat 0 [] .null [] i hroot)
+    (fun i _ => ⟨ofList_ne_of_head (d := '$') (by decide) (by decide),
+      ofList_ne_of_head (d := '$') (by decide) (by decide),
+      ofList_ne_of_head (d := '$') (by decide) (by decide)⟩)
+    (fun i _ => ⟨process2_single_int 0 [] .null [] "v" "v" i
+        (process2_key_nodollar 0 [] .null [] 'v' [] (by decide)) (by decide) (by decide) (by decide),
+      process2_key_nodollar 1 [] .null [] 'k' _ (by decide)⟩)).1
+  rw [h]
+  exact congrArg Except.ok (by decide)
+
+/-- test (colliding keys): with the constant key `a` the later copy wins:
+    `{a: {$repeat: 2, v: $repeat}}` is `{a: {v: 1}}` -/
+example : process2 3 [] .null [] (.map [("a", .map [("$repeat", .int 2), ("v", .str "$repeat")])])
+    = .ok (.map [("a", .map [("v", .int 1)])]) := by
+  have hdel : fdel [("$repeat", Val.int 2), ("v", .str "$repeat")] "$repeat" = [("v", .str "$repeat")] := by
+    decide
+  have h := (C12_map_nested_exact 2 [] .null [] "a"
+    [("$repeat", .int 2), ("v", .str "$repeat")] 2 (fun i => .map [("v", .int i)])
+    (fun _ => "a") (by decide)
+    (fun i _ => by rw [hdel]; exact process2_body_v_repeat 0 [] .null [] i)
+    (fun _ _ => rfl)
+    (fun i _ => process2_key_nodollar 1 [] .null _ 'a' [] (by decide))
+    (fun i _ => by decide)
+    (fun i _ => ⟨process2_single_int 0 [] .null [] "v" "v" i
+        (process2_key_nodollar 0 [] .null [] 'v' [] (by decide)) (by decide) (by decide) (by decide),
+      process2_key_nodollar 1 [] .null [] 'a' [] (by decide)⟩)).1
+  rw [h]
+  exact congrArg Except.ok (by decide)
+
+/-! ## the output of `processDoc`: document `i` is the body evaluated under `$repeat ↦ i` -/
+
+/-- If phase 3 (`process1`) turns the merged document into a map with `$repeat: n`, the documents
+    produced by `processDoc` are, in order, the evaluations of the body (the map without its
+    `$repeat` key, which is also the referencing root) under `$repeat ↦ 0, 1, …, n-1`; the first
+    failing copy aborts. -/
+theorem C12_doc_int_order (docs : List Val) (env : Vars) (data : Val) (kvs : Fields) (rt : Val)
+    (n : Int) (h1 : process1 depthLimit docs data (some []) data = .ok (.map kvs, rt))
+    (hr : fget kvs "$repeat" = some (.int n)) :
+    processDoc docs env data
+      = (List.range n.toNat).mapM fun (i : Nat) =>
+          process2 depthLimit docs (.map (fdel kvs "$repeat")) (fset env "$repeat" (.int i))
+            (.map (fdel kvs "$repeat")) := by
+  unfold processDoc
+  rw [h1]
+  simp only [ok_bind]
+  rw [C12_repeatDoc_map_int kvs env n hr]
+  simp only [ok_bind]
+  rw [List.mapM_map]
+  rfl
+
+/-- … hence, when copy `i` evaluates to `g i`: exactly `n` documents, the `i`-th being `g i` -/
+theorem C12_doc_int_order_exact (docs : List Val) (env : Vars) (data : Val) (kvs : Fields)
+    (rt : Val) (n : Int) (g : Nat → Val)
+    (h1 : process1 depthLimit docs data (some []) data = .ok (.map kvs, rt))
+    (hr : fget kvs "$repeat" = some (.int n))
+    (hg : ∀ i, i < n.toNat →
+      process2 depthLimit docs (.map (fdel kvs "$repeat")) (fset env "$repeat" (.int i))
+        (.map (fdel kvs "$repeat")) = .ok (g i)) :
+    ∃ outs, processDoc docs env data = .ok outs ∧ outs.length = n.toNat ∧
+      ∀ i, i < n.toNat → outs[i]? = some (g i) := by
+  refine ⟨(List.range n.toNat).map g, ?_, by simp, ?_⟩
+  · rw [C12_doc_int_order docs env data kvs rt n h1 hr]
+    exact mapM_ok_of_forall' _ g _ (fun i hi => hg i (List.mem_range.1 hi))
+  · intro i hi
+    rw [List.getElem?_map, List.getElem?_range hi]
+    rfl
+
+/-- the `process1` hypothesis is automatic for a well-formed document of depth below the limit
+    that contains no `$merge` / `$replace` (as key, as `$merge:`/`$replace:` string) — `p1OK`;
+    the body is then the input without its null entries and without the `$repeat` key -/
+theorem C12_doc_int_order_closed (docs : List Val) (env : Vars) (kvs : Fields) (n : Int)
+    (hp : allStr p1OK (.map kvs) = true) (hw : Val.wfB (.map kvs) = true)
+    (hd : depth (.map kvs) < depthLimit) (hr : fget kvs "$repeat" = some (.int n)) :
+    processDoc docs env (.map kvs)
+      = (List.range n.toNat).mapM fun (i : Nat) =>
+          process2 depthLimit docs (.map (fdel (dropNullsFields kvs) "$repeat"))
+            (fset env "$repeat" (.int i)) (.map (fdel (dropNullsFields kvs) "$repeat")) :=
+  C12_doc_int_order docs env (.map kvs) (dropNullsFields kvs) (.map kvs) n
+    (process1_p1 depthLimit docs (.map kvs) (some []) (.map kvs) hp hw hd)
+    (fget_dropNullsFields_int hr)
+
+/-- combined with the substitution theorem: for a body in the class `repeatBody`, document `i` is
+    the evaluation of the hand-written copy `substRepeat i body` — as its own root, without any
+    `$repeat` binding -/
+theorem C12_doc_int_subst (docs : List Val) (env : Vars) (data : Val) (kvs : Fields) (rt : Val)
+    (n : Int) (h1 : process1 depthLimit docs data (some []) data = .ok (.map kvs, rt))
+    (hr : fget kvs "$repeat" = some (.int n))
+    (hb : repeatBody true (.map (fdel kvs "$repeat")) = true) :
+    processDoc docs env data
+      = (List.range n.toNat).mapM fun (i : Nat) =>
+          process2 depthLimit docs (substRepeat i (.map (fdel kvs "$repeat"))) env
+            (substRepeat i (.map (fdel kvs "$repeat"))) := by
+  rw [C12_doc_int_order docs env data kvs rt n h1 hr]
+  have h : (fun (i : Nat) =>
+      process2 depthLimit docs (.map (fdel kvs "$repeat")) (fset env "$repeat" (.int i))
+        (.map (fdel kvs "$repeat")))
+      = fun (i : Nat) => process2 depthLimit docs (substRepeat i (.map (fdel kvs "$repeat"))) env
+        (substRepeat i (.map (fdel kvs "$repeat"))) := by
+    funext i
+    exact C12_subst_standalone depthLimit docs docs _ _ env i _ (C12_rootOK_body kvs docs) hb
+  rw [h]
+
+/-- non-vacuity: `exRepeatDoc = {$repeat: 3, idx: $repeat, name: $"item-{$repeat}"}` satisfies
+    every hypothesis of `C12_doc_int_order_closed` and of `C12_doc_int_subst` -/
+example : allStr p1OK (.map exRepeatDoc) = true ∧ Val.wfB (.map exRepeatDoc) = true ∧
+    depth (.map exRepeatDoc) < depthLimit ∧ fget exRepeatDoc "$repeat" = some (.int 3) ∧
+    repeatBody true (.map (fdel (dropNullsFields exRepeatDoc) "$repeat")) = true :=
+  ⟨by decide, by decide, by decide, by decide, by decide⟩
+
+/-- end-to-end test: `processDoc` on `{$repeat: 3, idx: $repeat, name: $"item-{$repeat}"}` emits
+    `{idx: 0, name: item-0}`, `{idx: 1, name: item-1}`, `{idx: 2, name: item-2}`, in this order
+    (and `hg` of `C12_doc_int_order_exact` is satisfiable) -/
+example : processDoc [] [] (.map exRepeatDoc)
+    = .ok [.map [("idx", .int 0), ("name", .str "item-0")],
+           .map [("idx", .int 1), ("name", .str "item-1")],
+           .map [("idx", .int 2), ("name", .str "item-2")]] := by
+  rw [C12_doc_int_order_closed [] [] exRepeatDoc 3 (by decide) (by decide) (by decide) (by decide),
+    exRepeatBody_eq]
+  refine (mapM_ok_of_forall' _ (fun (i : Nat) => Val.map [("idx", .int i),
+      ("name", .str (String.ofList ("item-".toList ++ (toString (i : Int)).toList)))]) _
+      (fun i _ => process2_exRepeatBody 998 [] [] i)).trans ?_
+  exact congrArg Except.ok (by decide)
+
+/-! ## an upper layer overriding the count -/
+
+/-- If an upper layer `s` (key-sorted, no `$replace: true`) sets `$repeat: m` and the layer merge
+    succeeds, the merged document generates exactly `m` copies (of the merged rest), whatever
+    the lower layer had under `$repeat` — a different integer count, some other value, or
+    nothing.  (Corollary of the per-key map law of C01 and `C12_doc_int`.) -/
+theorem C12_count_from_upper_layer {d s : Fields} {r : Val} (ec : Vars) (m : Int)
+    (hs : Fields.SortedKeys s) (hrep : fhasBool s "$replace" true = false)
+    (hm : fget s "$repeat" = some (.int m)) (h : merge (.map d) (.map s) = .ok r) :
+    ∃ rm, r = .map rm ∧ fget rm "$repeat" = some (.int m) ∧
+      repeatDoc r ec = .ok ((List.range m.toNat).map fun (i : Nat) =>
+        (.map (fdel rm "$repeat"), fset ec "$repeat" (.int i))) ∧
+      ((List.range m.toNat).map fun (i : Nat) =>
+        ((.map (fdel rm "$repeat") : Val), fset ec "$repeat" (.int i))).length = m.toNat := by
+  obtain ⟨rm, rfl, hget⟩ := merge_repeat_count hs hrep hm h
+  exact ⟨rm, rfl, hget, C12_repeatDoc_map_int rm ec m hget, by simp⟩
+
+/-- the override proper: the lower layer has count `n0`, the upper layer is `{$repeat: m}` with
+    `m ≠ n0`.  The merge succeeds, replaces only the count, and the document that generated `n0`
+    copies of its body now generates `m` copies of the same body. -/
+theorem C12_count_override (d : Fields) (ec : Vars) (n0 m : Int)
+    (hold : fget d "$repeat" = some (.int n0)) (hne : m ≠ n0) :
+    merge (.map d) (.map [("$repeat", .int m)]) = .ok (.map (fset d "$repeat" (.int m))) ∧
+    repeatDoc (.map d) ec = .ok ((List.range n0.toNat).map fun (i : Nat) =>
+      (.map (fdel d "$repeat"), fset ec "$repeat" (.int i))) ∧
+    repeatDoc (.map (fset d "$repeat" (.int m))) ec = .ok ((List.range m.toNat).map fun (i : Nat) =>
+      (.map (fdel d "$repeat"), fset ec "$repeat" (.int i))) := by
+  refine ⟨by rw [merge_repeat_single d n0 m hold, if_neg hne], C12_repeatDoc_map_int d ec n0 hold, ?_⟩
+  rw [C12_repeatDoc_map_int _ ec m (fget_fset_same _ _ _), fdel_fset_same']
+
+/-- restating the same count in an upper layer is rejected (`uselessOverride`), which is why
+    the override theorem needs `m ≠ n0` -/
+theorem C12_count_same_is_error (d : Fields) (n0 : Int) (hold : fget d "$repeat" = some (.int n0)) :
+    merge (.map d) (.map [("$repeat", .int n0)]) = .error .uselessOverride := by
+  rw [merge_repeat_single d n0 n0 hold, if_pos rfl]
+
+/-- the number of documents `processDoc` emits for a document whose phase-3 form has
+    `$repeat: n` is `n` (when it succeeds) -/
+theorem C12_doc_int_count (docs : List Val) (env : Vars) (data : Val) (kvs : Fields) (rt : Val)
+    (n : Int) (outs : List Val)
+    (h1 : process1 depthLimit docs data (some []) data = .ok (.map kvs, rt))
+    (hr : fget kvs "$repeat" = some (.int n)) (ho : processDoc docs env data = .ok outs) :
+    outs.length = n.toNat := by
+  rw [C12_doc_int_order docs env data kvs rt n h1 hr] at ho
+  simpa using mapM_length_ok _ _ _ ho
+
+/-- … so after the override the merged document emits `m` documents -/
+theorem C12_count_override_docs (docs : List Val) (env : Vars) (d : Fields) (n0 m : Int)
+    (outs : List Val) (hold : fget d "$repeat" = some (.int n0)) (hne : m ≠ n0)
+    (hp : allStr p1OK (.map (fset d "$repeat" (.int m))) = true)
+    (hw : Val.wfB (.map (fset d "$repeat" (.int m))) = true)
+    (hd : depth (.map (fset d "$repeat" (.int m))) < depthLimit) :
+    ∃ r, merge (.map d) (.map [("$repeat", .int m)]) = .ok r ∧
+      (processDoc docs env r = .ok outs → outs.length = m.toNat) := by
+  refine ⟨_, (C12_count_override d env n0 m hold hne).1, fun ho => ?_⟩
+  exact C12_doc_int_count docs env _ _ _ m outs
+    (process1_p1 depthLimit docs _ (some []) _ hp hw hd)
+    (fget_dropNullsFields_int (fget_fset_same _ _ _)) ho
+
+/-- non-vacuity / tests: base `{$repeat: 3, idx: $repeat, name: …}`, upper layer `{$repeat: 2}` -/
+example : fget exRepeatDoc "$repeat" = some (.int 3) ∧ (2 : Int) ≠ 3 ∧
+    allStr p1OK (.map (fset exRepeatDoc "$repeat" (.int 2))) = true ∧
+    Val.wfB (.map (fset exRepeatDoc "$repeat" (.int 2))) = true ∧
+    depth (.map (fset exRepeatDoc "$repeat" (.int 2))) < depthLimit :=
+  ⟨by decide, by decide, by decide, by decide, by decide⟩
+example : Fields.SortedKeys [("$repeat", Val.int 2), ("extra", .int 1)] ∧
+    fhasBool [("$repeat", Val.int 2), ("extra", .int 1)] "$replace" true = false ∧
+    fget [("$repeat", Val.int 2), ("extra", .int 1)] "$repeat" = some (.int 2) ∧
+    merge (.map exRepeatDoc) (.map [("$repeat", .int 2), ("extra", .int 1)])
+      = .ok (.map [("$repeat", .int 2), ("extra", .int 1), ("idx", .str "$repeat"),
+          ("name", .str "$\"item-{$repeat}\"")]) := by
+  refine ⟨by decide, by decide, by decide, ?_⟩
+  simp [exRepeatDoc, merge, mergeMapMap, mergeFields, fhasBool, fget, fset, Val.toStr]
+  rfl
+/-- end to end: after the override the example document emits two documents -/
+example : ∃ r, merge (.map exRepeatDoc) (.map [("$repeat", .int 2)]) = .ok r ∧
+    processDoc [] [] r = .ok [.map [("idx", .int 0), ("name", .str "item-0")],
+                             .map [("idx", .int 1), ("name", .str "item-1")]] := by
+  refine ⟨_, (C12_count_override exRepeatDoc [] 3 2 (by decide) (by decide)).1, ?_⟩
+  rw [C12_doc_int_order_closed [] [] _ 2 (by decide) (by decide) (by decide) (by decide)]
+  have hb : fdel (dropNullsFields (fset exRepeatDoc "$repeat" (.int 2))) "$repeat" = exRepeatBody := by
+    decide
+  rw [hb]
+  refine (mapM_ok_of_forall' _ (fun (i : Nat) => Val.map [("idx", .int i),
+      ("name", .str (String.ofList ("item-".toList ++ (toString (i : Int)).toList)))]) _
+      (fun i _ => process2_exRepeatBody 998 [] [] i)).trans ?_
+  exact congrArg Except.ok (by decide)
 
 end Bkl
